@@ -655,3 +655,21 @@ func verifRoundTripSymmetricSecurityHeader(h *SymmetricSecurityHeader) {
 	n, derr := g.Decode(b)
 	verifAssert("C01:symmetric-header", err == nil && derr == nil && n == 4 && len(b) == 4 && g.TokenID == h.TokenID && h.Len() == 4)
 }
+
+// C08: signAndEncrypt hands the cipher a plaintext with the Part 6 layout (variant contract: same
+// function, the layout obligations are the preconditions of Encrypt@layout at its call site).
+//@ func (*channelInstance).signAndEncrypt@layout
+//@   props C08
+//@   bytes
+//@   use (*github.com/gopcua/opcua/uapolicy.EncryptionAlgorithm).Encrypt@layout
+//@   requires chanOK(c) && symMsg(m)
+//@   requires 24 <= len(b) && len(b) <= 4294967295 - 4096
+//@   split c.algo.blockSize == 16 && c.algo.signatureLength == 20
+//@   split c.algo.blockSize == 16 && c.algo.signatureLength == 32
+//@   split c.algo.blockSize == 1
+//@   assigns m.MessageHeader.Header.MessageSize, elems(b), c.algo.signature, c.algo.encrypt
+//@   loop 0 invariant 0 <= i && i <= paddingLength + 1 && len(b) == len(old(b)) + i
+//@   loop 0 invariant 0 <= paddingLength && paddingLength < 16 && 24 <= len(old(b)) && off(b) == off(old(b))
+//@   loop 0 invariant arr(b) == arr(old(b)) || fresh(b)
+//@   loop 0 invariant [C08:padding-so-far] forall k int :: { at(b, k) } off(b) + len(old(b)) <= k && k < off(b) + len(b) ==> at(b, k) == uint8(paddingLength)
+//@   loop 0 decreases paddingLength + 1 - i
